@@ -83,7 +83,7 @@ def check_writers(ctx, rule, rels, arrays, what, funcs=None):
                     line = i
                     break
             if decl:
-                ok = re.fullmatch(rf"{arr}\[[A-Z_+1]+\]=\{{0(\.0)?\}}", nf) is not None or re.fullmatch(rf"{arr}\[[A-Z_+1 ]+\]=\{{H?\}}", nf) is not None
+                ok = re.fullmatch(rf"{arr}\[[A-Z_+1]+\]=\{{0(\.0)?\}}", nf) is not None or re.fullmatch(rf"{arr}\[[A-Z_+1 ]+\]=\{{H*\}}", nf) is not None      # (an initialiser made of template outputs only -- one joined output or a loop printing elements and separators; what they print is C03.R3's subject)
                 ctx.check(ok, rule, key, (rel, line), f"`{raw}` declares a zero-initialised work array" if ok else f"`{raw}`: unexpected initialiser for a work array", found=raw)
                 n += 1
                 continue
